@@ -25,6 +25,11 @@ CHECKS = {
   text="Theorems run_verdict_perm_invariant / launch_verdict_perm_invariant (verdicts, including launch roll-up counts, depend only on the multiset of records, for record lists of any length, under the one-SER-per-node hypothesis the runtime guarantees), interleaving_invariant, finalize_idempotent, and prefix_started_verdict / full_trace_verdict / take_fullTrace (every prefix of a runtime trace of any length gets the documented verdict: partial with exactly the end edge missing and missing nodes = canonical nodes without a SER, complete with both edges, no orphans). The status rules are tables regenerated from the real finalize_run/finalize_launch on every run and re-checked against the documented rules by `decide`; the model is compared with the real aggregator on prefixes, permutations, subsets and k-way interleavings of real traces.",
   note="Trusted: Lean kernel; the table extractor and record canonicaliser in props/c13.py (timestamps as ranks); hypothesis Compat (one pipeline_start per run, one status per (run,node)); the per-run projection of the dictionary of runs (validated by the differential run on multi-run record sets).",
   design="§7 C13"),
+ "C14": dict(
+  technique="Lean 4 proof (inductive invariants of a small-step thread model over every schedule: conservation up to permutation, queue reachability, routing, per-(publisher,channel) order, freshness) + decidable side condition on a shape record extracted from in_memory.py + systematic bounded-preemption exploration of real thread schedules with a deterministic line-level scheduler",
+  text="Theorems conservation (all shapes), exactly_once, no_stranded_message, only_matching_delivered, per_publisher_channel_fifo, no_half_tested: for every schedule of any length, any number of publishers/subscribers/channels and any matcher, the completed publications are pairwise distinct and are exactly the queued plus the taken messages, every queued message sits in the queue the channel map names (so a matching subscription finds it), deliveries match the subscription pattern and arrive in publication order per publisher and channel — under the side condition Shape.good, re-decided on the shape the translator reads off publish/__iter__ on every run. Real thread schedules (2-3 publishers, 1-2 subscribers, new/existing channels, exact/wildcard patterns) are enumerated at line granularity up to a preemption bound and judged on the real outcome.",
+  note="Trusted: Lean kernel; the lexical shape extractor (props/c14.py, conservative: unknown = not atomic); GIL atomicity of single C calls; the identity of append-lock and pop-lock. Real schedule exploration is bounded (2 preemptions quick, 3 thorough): it validates the shape and finds replays, the unbounded claim is the theorem about the model.",
+  design="§7 C14"),
 }
 
 NOT_APPLICABLE = {}
